@@ -577,4 +577,205 @@ theorem timed_recv_delay {d : Int} (evs : List Ev) : ∀ (t0 t : Int), Timed d t
     · have := ih e.time t h3 s a m hm'
       exact ⟨this.1, this.2.1, by omega, this.2.2.2⟩
 
+
+/-! ## prefixes of a timed history -/
+
+theorem timed_mem {d : Int} (evs : List Ev) : ∀ (t0 t : Int), Timed d t0 evs t →
+    t0 ≤ t ∧ ∀ y ∈ evs, t0 ≤ y.time ∧ y.time ≤ t ∧ y.DelayOK d := by
+  induction evs with
+  | nil => intro t0 t h; exact ⟨h, by simp⟩
+  | cons e es ih =>
+    intro t0 t h
+    obtain ⟨h1, h2, h3⟩ := h
+    obtain ⟨i1, i2⟩ := ih e.time t h3
+    refine ⟨by omega, ?_⟩
+    intro y hy
+    rcases List.mem_cons.mp hy with rfl | hy
+    · exact ⟨h1, i1, h2⟩
+    · have := i2 y hy
+      exact ⟨by omega, this.2.1, this.2.2⟩
+
+/-- cutting a timed history after the event `x`: the prefix is a timed history ending at `x`'s
+instant, and everything after `x` happens no earlier -/
+theorem timed_prefix {d : Int} (A : List Ev) (x : Ev) (B : List Ev) : ∀ (t0 t : Int),
+    Timed d t0 (A ++ x :: B) t →
+    Timed d t0 (A ++ [x]) x.time ∧ x.time ≤ t ∧ ∀ y ∈ B, x.time ≤ y.time ∧ y.DelayOK d := by
+  induction A with
+  | nil =>
+    intro t0 t h
+    obtain ⟨h1, h2, h3⟩ := h
+    have := timed_mem B x.time t h3
+    exact ⟨⟨h1, h2, Int.le_refl _⟩, this.1, fun y hy => ⟨(this.2 y hy).1, (this.2 y hy).2.2⟩⟩
+  | cons a A ih =>
+    intro t0 t h
+    obtain ⟨h1, h2, h3⟩ := h
+    obtain ⟨i1, i2, i3⟩ := ih a.time t h3
+    exact ⟨⟨h1, h2, i1⟩, i2, i3⟩
+
+theorem fair_prefix {P : Pubs} {d startT : Int} (A : List Ev) (x : Ev) (B : List Ev) (t : Int)
+    (hT : Timed d startT (A ++ x :: B) t) (hF : Fair P d startT (A ++ x :: B) t) :
+    Fair P d startT (A ++ [x]) x.time := by
+  obtain ⟨_, hxt, hB⟩ := timed_prefix A x B startT t hT
+  refine ⟨?_, ?_⟩
+  · intro s a m hm
+    apply hF.1 s a m
+    simp only [List.mem_append, List.mem_cons, List.not_mem_nil, or_false] at hm ⊢
+    rcases hm with h | h
+    · exact Or.inl h
+    · exact Or.inr (Or.inl h)
+  · intro s m hP hs hsd
+    obtain ⟨a, hm⟩ := hF.2 s m hP hs (by omega)
+    refine ⟨a, ?_⟩
+    simp only [List.mem_append, List.mem_cons, List.not_mem_nil, or_false] at hm ⊢
+    rcases hm with h | h | h
+    · exact Or.inl h
+    · exact Or.inr h
+    · obtain ⟨h1, h2⟩ := hB _ h
+      change x.time ≤ a at h1
+      change s ≤ a ∧ a ≤ s + d at h2
+      omega
+
+/-! ## change notification -/
+
+theorem stepEvN_st (ttl : Int) (self : Node) (n : NSt) (e : Ev) :
+    (stepEvN ttl self n e).st = stepEv ttl n.st e := by
+  cases e with
+  | query t => rfl
+  | recv s t m =>
+    simp only [stepEvN, stepEv, listenN]
+    cases hu : unmarshal m with
+    | none => simp [listen_none hu]
+    | some c =>
+      simp only [checkHashN]
+      split <;> rfl
+
+theorem runEvsN_st (ttl : Int) (self : Node) (startT : Int) (evs : List Ev) :
+    (runEvsN ttl self startT evs).st = runEvs ttl self startT evs := by
+  unfold runEvsN runEvs
+  suffices ∀ (n : NSt) (s : St), n.st = s →
+      (evs.foldl (stepEvN ttl self) n).st = evs.foldl (stepEv ttl) s from this _ _ rfl
+  induction evs with
+  | nil => intro n s h; exact h
+  | cons e es ih =>
+    intro n s h
+    simp only [List.foldl_cons]
+    exact ih _ _ (by rw [stepEvN_st, h])
+
+/-- after a handled message the stored hash is that of the current id list -/
+theorem stepEvN_lastKeys_handled (ttl : Int) (self : Node) (n : NSt) (e : Ev) (h : e.handled = true) :
+    (stepEvN ttl self n e).lastKeys = some (sortedKeys (stepEvN ttl self n e).st) := by
+  cases e with
+  | query t => simp [Ev.handled] at h
+  | recv s t m =>
+    simp only [Ev.handled] at h
+    simp only [stepEvN, listenN]
+    cases hu : unmarshal m with
+    | none => simp [hu] at h
+    | some c =>
+      simp only [checkHashN]
+      split
+      · assumption
+      · rfl
+
+/-- anything else leaves the stored hash and the callback's view alone: in particular an expiry
+that a `GetPeers` call cleans up is **not** notified -/
+theorem stepEvN_unhandled (ttl : Int) (self : Node) (n : NSt) (e : Ev) (h : e.handled = false) :
+    (stepEvN ttl self n e).lastKeys = n.lastKeys ∧ (stepEvN ttl self n e).view = n.view := by
+  cases e with
+  | query t => exact ⟨rfl, rfl⟩
+  | recv s t m =>
+    simp only [Ev.handled] at h
+    simp only [stepEvN, listenN]
+    cases hu : unmarshal m with
+    | none => exact ⟨rfl, rfl⟩
+    | some c => simp [hu] at h
+
+/-- every entry for a live node's id carries that node's address -/
+def GoodItems (live : List Node) (items : AList Bytes (Bytes × Int)) : Prop :=
+  ∀ k a e, (k, (a, e)) ∈ items → ∀ n ∈ live, n.id = k → a = n.addr
+
+theorem good_filter {live : List Node} {items : AList Bytes (Bytes × Int)} (h : GoodItems live items)
+    (f : Bytes × Bytes × Int → Bool) : GoodItems live (items.filter f) :=
+  fun k a e hm => h k a e (List.mem_filter.mp hm).1
+
+theorem good_stepEv {live : List Node} {ttl : Int} {s : St} (e : Ev)
+    (hO : ∀ n ∈ live, ∀ sent t m c, e = Ev.recv sent t m → unmarshal m = some c → c.id = n.id →
+      c = ⟨.register, n.id, n.addr⟩)
+    (h : GoodItems live s.items) : GoodItems live (stepEv ttl s e).items := by
+  cases e with
+  | query t => exact good_filter h _
+  | recv sent t m =>
+    simp only [stepEv]
+    cases hu : unmarshal m with
+    | none => rw [listen_none hu]; exact h
+    | some c =>
+      obtain ⟨act, id, addr⟩ := c
+      cases act with
+      | unregister =>
+        rw [listen_unreg hu]
+        exact good_filter (good_filter h _) _
+      | register =>
+        rw [listen_reg hu]
+        apply good_filter
+        intro k a e hm n hn hk
+        simp only [AList.put] at hm
+        rcases List.mem_cons.mp hm with heq | hm'
+        · simp only [Prod.mk.injEq] at heq
+          have := hO n hn sent t m _ rfl hu (by simp [heq.1, hk])
+          simp only [Cmd.mk.injEq] at this
+          rw [heq.2.1, this.2.2]
+        · exact good_filter h _ k a e hm' n hn hk
+
+theorem nodup_cleanup {s : St} (h : AList.NoDupKeys s.items) : AList.NoDupKeys (cleanup s).items := by
+  simpa [cleanup] using AList.nodup_keep _ h _
+
+theorem nodup_stepEv {ttl : Int} {s : St} (e : Ev) (h : AList.NoDupKeys s.items) :
+    AList.NoDupKeys (stepEv ttl s e).items := by
+  cases e with
+  | query t => exact nodup_cleanup (s := { s with now := t }) h
+  | recv sent t m =>
+    simp only [stepEv]
+    cases hu : unmarshal m with
+    | none => rw [listen_none hu]; exact h
+    | some c =>
+      obtain ⟨act, id, addr⟩ := c
+      cases act with
+      | unregister => rw [listen_unreg hu]; exact nodup_cleanup (AList.nodup_del _ h _)
+      | register => rw [listen_reg hu]; exact nodup_cleanup (AList.nodup_put _ h _ _)
+
+/-- what the callback last saw is `GetPeers` of some earlier state of the node, namely the one
+whose id list the stored hash describes -/
+def ViewInv (live : List Node) (self : Node) (n : NSt) : Prop :=
+  match n.lastKeys, n.view with
+  | none, none => True
+  | some ks, some v => ∃ s0 : St, GoodItems live s0.items ∧ AList.NoDupKeys s0.items ∧
+      ks = sortedKeys s0 ∧ v = getPeers self s0
+  | _, _ => False
+
+theorem viewInv_stepEvN {live : List Node} {ttl : Int} {self : Node} {n : NSt} (e : Ev)
+    (hg : GoodItems live (stepEvN ttl self n e).st.items)
+    (hn : AList.NoDupKeys (stepEvN ttl self n e).st.items)
+    (h : ViewInv live self n) : ViewInv live self (stepEvN ttl self n e) := by
+  cases hh : e.handled with
+  | false =>
+    obtain ⟨h1, h2⟩ := stepEvN_unhandled ttl self n e hh
+    unfold ViewInv
+    rw [h1, h2]
+    exact h
+  | true =>
+    cases e with
+    | query t => simp [Ev.handled] at hh
+    | recv s t m =>
+      simp only [Ev.handled] at hh
+      simp only [stepEvN, listenN] at hg hn ⊢
+      cases hu : unmarshal m with
+      | none => simp [hu] at hh
+      | some c =>
+        simp only [hu, checkHashN] at hg hn ⊢
+        split
+        · exact h
+        · rename_i hne
+          simp only [hne, if_false] at hg hn
+          exact ⟨_, hg, hn, rfl, rfl⟩
+
 end Refinery.Model.Peers
